@@ -6,7 +6,7 @@ class C04(ProgProp):
     report = ("C04", "MODEL")
     staged = True
     cfg = {"p_sync": 0.0, "p_try": 0.08, "p_fault": 0.08, "p_ctx": 0.05, "p_na": 0.03, "max_kinds": 4, "item_faults": 0.03,
-           "p_item": 0.5, "max_templates": 10}
+           "p_item": 0.5, "max_templates": 10, "flush_faults": 0.08, "p_item_eq": 0.2}
 
     def tune(self, rng, cfg, tier):
         if rng.random() < 0.35:
